@@ -329,7 +329,7 @@ func execLiveReal(t []string) string {
 	n, _ := strconv.Atoi(t[2])
 	every := time.Duration(ms) * time.Millisecond
 	var last string
-	for attempt := 0; attempt < 4; attempt++ {
+	for attempt := 0; attempt < 6; attempt++ {
 		tk := kapacitor.VerifNewTimeTicker(every, true)
 		t0 := time.Now()
 		ch := tk.Start()
